@@ -61,6 +61,8 @@ class Ctx:
             "the fact extractor /verif/driver (dumps MIR/HIR/ADT facts, decides nothing)",
             "the spec tables under /verif/spec written from the ISA, README and property statements",
         ]
+        if getattr(self.prog, "aliases", None):
+            self.trusted.append("rename matcher (lacecheck/alias.py): %s" % ", ".join("%s is the reference tree's %s" % (a, b) for a, b in sorted(self.prog.aliases.items())))
         self.known_db = load_known()
         self.analysed_fns = set()
 
